@@ -99,7 +99,8 @@ func runC15(c *Ctx) {
 			return ok && spec.ev(call)
 		})
 		reached := map[ssa.Instruction]bool{}
-		r := &esp.Rule{Name: "C15." + spec.rule, Flag: flag, GoAsCall: true} // the flags never change after parsing (R3): a goroutine started here sees them as the spawn point does
+		r := &esp.Rule{Name: "C15." + spec.rule, Flag: flag, GoAsCall: true}
+		workspaceCell(r, 6) // a workspace kept in a field of an attempt record (nil under dry-run) // the flags never change after parsing (R3): a goroutine started here sees them as the spawn point does
 		r.Relevant = func(f *ssa.Function) bool { return relevant[f] }
 		r.Match = func(in ssa.Instruction) []esp.Ev {
 			call, ok := in.(ssa.CallInstruction)
